@@ -136,6 +136,10 @@ def _outcome_the(built):
         return ("multiple", None)
     except NoSolutionFound:
         return ("none", None)
+    except InjectedFault:
+        raise
+    except Exception as e:      # any other exception escaping evaluate() is an outcome of its own (and a failure)
+        return ("error", f"{type(e).__name__}: {e}")
 
 
 def _spec_case(case, spec):
@@ -195,7 +199,11 @@ def check(case) -> Outcome:
                                                            f"history {case['ops'][:step]}", classes=classes,
                                     features=feats + ["the"], nontrivial=nontrivial)
                     continue
-                got = rows_of(b, list(b.q.evaluate()))
+                try:
+                    got = rows_of(b, list(b.q.evaluate()))
+                except Exception as e:
+                    return fail("exception", f"{label}: {type(e).__name__}: {e}; earlier ops {case['ops'][:step]}",
+                                classes=classes, features=feats, nontrivial=nontrivial)
                 want = twin_rows(qi)
                 sc = _spec_case(case, spec)
                 if not has_dup:
